@@ -598,3 +598,35 @@ def run_differential_property(prop, prop_file, targets, drv, harness_src, gen, c
                           "proof obligation(s) of %s no longer check:\n%s\n(correspondence: %d cases, %d observable mismatches)"
                           % (prop_file, proof["log"][-3000:], len(cases), len(obs)), found_input=False)
     return rep.finish(proof, cov)
+
+
+def proof_stage_multi(prop_files, targets, name_re=None):
+    """proof stage over several Properties files; only theorems whose name matches name_re are counted
+    (a Properties file of a shared model holds theorems of several properties)."""
+    t0 = time.time()
+    ok, mlog = coq_make(targets)
+    rx = re.compile(name_re) if name_re else None
+    res = {"ok": ok, "theorems": [], "discharged": 0, "assumptions": [], "log": "" if ok else mlog, "forbidden": []}
+    for pf in prop_files:
+        thms = [t for t in count_theorems(pf) if (rx is None or rx.search(t))]
+        res["theorems"] += thms
+        if ok:
+            aok, ass, raw = coq_assumptions(pf)
+            ass = [(n, a) for (n, a) in ass if (rx is None or rx.search(n))]
+            res["assumptions"] += ass
+            if aok:
+                res["discharged"] += len(thms)
+            else:
+                res["ok"] = False
+                res["log"] += raw
+    closure = coq_dep_closure(list(prop_files) + [t[:-1] for t in targets if t.endswith(".vo")])
+    res["files"] = closure
+    fb = grep_forbidden(only=set(closure))
+    res["forbidden"] = fb
+    if fb:
+        res["ok"] = False
+        res["log"] += "\nforbidden constructs: " + "; ".join(fb[:5])
+    bad_ax = [n for (n, a) in res["assumptions"] if not a.startswith("Closed under")]
+    res["axioms_used"] = bad_ax
+    res["wall"] = time.time() - t0
+    return res
